@@ -56,12 +56,17 @@ def hostile(shard, rnd):
             yield x
         for x in faults.template_key_fault_frames(rnd):
             yield x
+        for x in faults.foreign_greetings(rnd):
+            yield x
     for x in faults.random_inputs(rnd, shard['rand']):
         yield x
     for depth in shard['deep']:
         for kinds in ('A', 'F', 'AF'):
             for x in faults.deep_frames(rnd, depth, kinds):
                 yield x[0], x[1] + ':%d' % depth
+    for depth in shard['deep']:
+        for x in faults.deep_mixed_frames(rnd, depth):
+            yield x
     for depth in shard.get('deep_fault', ()):
         for x in faults.deep_fault_frames(rnd, depth):
             yield x
